@@ -236,10 +236,12 @@ impl Execution {
                 .set_last_access(operation, th_id, path_id, &threads.active().dpor_vv);
         }
 
-        // Reactivate yielded threads, but only if the current active thread is
-        // not yielded.
-        for (id, th) in self.threads.iter_mut() {
-            if th.is_yield() && Some(id) != next {
+        // Reactivate yielded threads. This includes the thread that runs next:
+        // if it is the one that yielded, no other thread could run and its
+        // yield is over. Left in the yielded state, it would be switched out
+        // at its next operation instead, with no alternative.
+        for (_, th) in self.threads.iter_mut() {
+            if th.is_yield() {
                 th.set_runnable();
             }
         }
